@@ -22,6 +22,12 @@ type G struct {
 	Guide int
 	// AxisPool restricts the axes drawn (nil = all twelve).
 	AxisPool []string
+	// NonFlatConv lets node-sets that are converted to a string (contains,
+	// starts-with arguments) be arbitrary paths instead of flat ones; NonFlatCount
+	// does the same for count(). Both are off while the known findings about
+	// conversion order / duplicate counting are confirmed present.
+	NonFlatConv  bool
+	NonFlatCount bool
 }
 
 // NewG builds a generation context with the default alphabets.
@@ -137,6 +143,7 @@ type PathOpts struct {
 	PredDepth int  // > 0: steps may carry boolean predicates of this nesting depth
 	PredShare int  // out of 10: chance that a step carries predicates
 	ForcePred bool // at least one predicate somewhere
+	LastPred  bool // with ForcePred: the last step always carries a boolean predicate
 	Pos       bool // child steps may carry a positional first predicate (C03)
 	AbsShare  int  // out of 10: chance of an absolute path
 	DSlash    int  // out of 10: chance of '//' before a step
@@ -176,7 +183,7 @@ func (g *G) AxisPath(ctx *xdoc.Node, o PathOpts) *xast.Path {
 			s.Preds = append(s.Preds, g.PosPred())
 			any = true
 		}
-		if o.PredDepth > 0 && (g.chance(o.PredShare, "haspred") || (last && o.ForcePred && !any)) {
+		if o.PredDepth > 0 && (g.chance(o.PredShare, "haspred") || (last && o.ForcePred && (!any || o.LastPred))) {
 			np := 1 + g.intn(2, "npred")
 			for j := 0; j < np; j++ {
 				s.Preds = append(s.Preds, g.BoolPred(cands, o.PredDepth))
@@ -267,7 +274,13 @@ func (g *G) BoolPred(cands xref.NodeSet, depth int) xast.Expr {
 		}
 		return &xast.Bin{Op: op, L: g.RelPath(cands, 2, 0), R: &xast.Str{S: g.pick(g.StrLits, "slit")}}
 	case 4:
-		return &xast.Bin{Op: g.pick(cmpOps, "cop"), L: &xast.Call{Name: "count", Args: []xast.Expr{g.FlatPath(cands)}}, R: &xast.Num{Lit: g.pick(g.NumLits, "nlit")}}
+		var arg xast.Expr
+		if g.NonFlatCount && g.chance(5, "nonflatcount") {
+			arg = g.RelPath(cands, 2, 0)
+		} else {
+			arg = g.FlatPath(cands)
+		}
+		return &xast.Bin{Op: g.pick(cmpOps, "cop"), L: &xast.Call{Name: "count", Args: []xast.Expr{arg}}, R: &xast.Num{Lit: g.pick(g.NumLits, "nlit")}}
 	case 5:
 		op := g.pick(cmpOps, "rop")
 		if rapid.Bool().Draw(g.T, "flip") {
@@ -286,6 +299,8 @@ func (g *G) BoolPred(cands xref.NodeSet, depth int) xast.Expr {
 		var a xast.Expr
 		if g.chance(3, "lname") {
 			a = &xast.Call{Name: "local-name"}
+		} else if g.NonFlatConv && g.chance(5, "nonflatconv") {
+			a = g.RelPath(cands, 2, 0)
 		} else {
 			a = g.FlatPath(cands)
 		}
@@ -318,4 +333,90 @@ func (g *G) PosPred() xast.Expr {
 	default:
 		return &xast.Bin{Op: "-", L: &xast.Call{Name: "last"}, R: &xast.Num{Lit: g.pick([]string{"1", "2"}, "lastn")}}
 	}
+}
+
+// PredExpr draws a C02 expression: a path whose steps carry boolean
+// predicates (the last step always does), or a parenthesised path followed by
+// one or more predicates.
+func (g *G) PredExpr(ctx *xdoc.Node, depth int) xast.Expr {
+	if g.chance(2, "parenform") {
+		inner := g.AxisPath(ctx, PathOpts{MaxSteps: 2, PredDepth: depth, PredShare: 2, AbsShare: 4, DSlash: 2})
+		var cands xref.NodeSet
+		if v, err := xref.Eval(g.Env, inner, ctx); err == nil {
+			cands, _ = v.(xref.NodeSet)
+		}
+		f := &xast.Filter{Primary: &xast.Group{X: inner}}
+		n := 1 + g.intn(2, "nfpred")
+		for j := 0; j < n; j++ {
+			f.Preds = append(f.Preds, g.BoolPred(cands, depth))
+		}
+		return f
+	}
+	return g.AxisPath(ctx, PathOpts{MaxSteps: 3, PredDepth: depth, PredShare: 3, ForcePred: true, LastPred: true, AbsShare: 4, DSlash: 2})
+}
+
+// PosN draws the integer of a [n] predicate.
+func (g *G) PosN() *xast.Num {
+	return &xast.Num{Lit: g.pick([]string{"1", "2", "3", "4", "5", "6"}, "n")}
+}
+
+// GroupN draws (flat)[n] or (//name)[n], optionally followed by a boolean predicate.
+func (g *G) GroupN(base xref.NodeSet) *xast.Filter {
+	flat := g.FlatPath(base)
+	// The flat path may itself carry a C02/C03 predicate on its last step, except
+	// in the descendant forms: C12 defines only the predicate-free //name as
+	// yielding document order (with a predicate the engine evaluates '//' parent
+	// by parent, so (//a[p])[n] is outside the fragment C03 claims).
+	descForm := len(flat.Steps) > 1 && flat.Steps[len(flat.Steps)-2] == interface{}(xast.DSlash{})
+	if first, ok := flat.Steps[0].(*xast.Step); ok && first.Axis == "descendant" {
+		descForm = true
+	}
+	if !descForm && g.chance(3, "flatpred") {
+		if st, ok := flat.Steps[len(flat.Steps)-1].(*xast.Step); ok {
+			if st.Axis == "child" && g.chance(5, "flatpos") {
+				st.Preds = append(st.Preds, g.PosPred())
+			} else {
+				st.Preds = append(st.Preds, g.BoolPred(nil, 0))
+			}
+		}
+	}
+	f := &xast.Filter{Primary: &xast.Group{X: flat}, Preds: []xast.Expr{g.PosN()}}
+	if g.chance(2, "groupbool") {
+		f.Preds = append(f.Preds, g.BoolPred(nil, 0))
+	}
+	return f
+}
+
+// PosExpr draws a C03 expression.
+func (g *G) PosExpr(ctx *xdoc.Node) xast.Expr {
+	switch g.intn(10, "posform") {
+	case 0, 1:
+		return g.GroupN(xref.NodeSet{ctx})
+	case 2:
+		// (flat)[n]/step...
+		f := g.GroupN(xref.NodeSet{ctx})
+		p := &xast.Path{Start: f}
+		var cur xref.NodeSet
+		if v, err := xref.Eval(g.Env, f, ctx); err == nil {
+			cur, _ = v.(xref.NodeSet)
+		}
+		n := 1 + g.intn(2, "tailsteps")
+		for i := 0; i < n; i++ {
+			st := g.Step(cur)
+			p.Steps = append(p.Steps, st)
+			cur = g.advance(cur, st)
+		}
+		return p
+	case 3:
+		// //a[(b)[2]]: the group is re-evaluated once per candidate
+		p := g.AxisPath(ctx, PathOpts{MaxSteps: 2, AbsShare: 5, DSlash: 4})
+		var cands xref.NodeSet
+		if v, err := xref.Eval(g.Env, p, ctx); err == nil {
+			cands, _ = v.(xref.NodeSet)
+		}
+		last := p.Steps[len(p.Steps)-1].(*xast.Step)
+		last.Preds = append(last.Preds, g.GroupN(cands))
+		return p
+	}
+	return g.AxisPath(ctx, PathOpts{MaxSteps: 3, PredDepth: 1, PredShare: 2, Pos: true, ForcePred: true, AbsShare: 4, DSlash: 3})
 }
